@@ -31,11 +31,7 @@ def subtree(ents, base):
 
 
 def default_max_rep(mode):
-    """SnmpSession(max_repetitions=<default>) as the source says now (an input of Model.Walk.fetch_walk)."""
-    import re
-    src = open(os.path.join(vf.REPO, "src/gufo/snmp/%s_client/client.py" % ("sync" if mode == "sync" else "async"))).read()
-    m = re.search(r"max_repetitions:\s*int\s*=\s*(\d+)", src)
-    return int(m.group(1)) if m else 20
+    return vf.default_max_repetitions(mode)
 
 
 def main(argv):
